@@ -12,6 +12,15 @@ CONSTANTS
   ClassShapes <- MCClassShapes
   DeployShapes <- MCDeployShapes
   CasmV2From = 4
+  ClassFields <- MCClassFields
+  TxClassFields <- MCTxClassFields
+  ClassOf <- MCClassOf
+  ValidClassOf <- MCValidClassOf
+  ClassIn <- MCClassIn
+  ShapeClass <- MCShapeClass
+  ProtoSame <- MCProtoSame
+  MalformedRefused = TRUE
+  ZeroAsAbsent <- MCNone
   MaxPending = 2
   SuccessionChecked = TRUE
   RootChecked = TRUE
